@@ -182,19 +182,30 @@ def lib_state(rec):
 
 
 class DupGuard:
-    """Per-socket duplicate-datagram guard as C16 states it: identical bytes within 1000 ms of the previous
-    datagram on the same socket are ignored unless that datagram contained a QU question."""
+    """Per-socket duplicate-datagram guard as C16 states it: a datagram delivered twice in immediate succession - the same
+    bytes within 1000 ms of the previous datagram on the same socket - is ignored unless it contained a QU question.
+    The same bytes from another legacy source are another client's query, not a duplicate."""
 
     def __init__(self):
         self.data = None
         self.t = 0.0
         self.last_qu = False
+        self.src = None
 
-    def suppressed(self, data, t_ms):
-        return self.data == data and (t_ms - 1000.0) < self.t and not self.last_qu
+    def suppressed(self, data, t_ms, src=None):
+        # a one-shot (legacy, port != 5353) query needs a unicast reply to its own address and port (C11): only a copy
+        # from that same address and port is its duplicate. Datagrams from port 5353 are answered by multicast (or carry
+        # a QU question and are exempt), so for them equal bytes suffice.
+        same_src = src is None or self.src is None or src[1] == wire.MDNS_PORT or _src_key(src) == self.src
+        return self.data == data and (t_ms - 1000.0) < self.t and not self.last_qu and same_src
 
-    def accept(self, data, t_ms, has_qu):
+    def accept(self, data, t_ms, has_qu, src=None):
         self.data, self.t, self.last_qu = data, t_ms, has_qu
+        self.src = _src_key(src) if src is not None else None
+
+
+def _src_key(addr):
+    return (addr[0], addr[1])
 
 
 class GuardSet:
@@ -204,13 +215,13 @@ class GuardSet:
     def __init__(self):
         self.g = {}
 
-    def check(self, sock_label, data, t_ms):
+    def check(self, sock_label, data, t_ms, src=None):
         """-> True when the datagram is to be processed (and records it), False when it is a suppressed duplicate."""
         g = self.g.setdefault(sock_label, DupGuard())
-        return not g.suppressed(data, t_ms)
+        return not g.suppressed(data, t_ms, src)
 
-    def accept(self, sock_label, data, t_ms, has_qu):
-        self.g.setdefault(sock_label, DupGuard()).accept(data, t_ms, has_qu)
+    def accept(self, sock_label, data, t_ms, has_qu, src=None):
+        self.g.setdefault(sock_label, DupGuard()).accept(data, t_ms, has_qu, src)
         for k, other in self.g.items():
             if k != sock_label:
                 other.data = None
@@ -224,17 +235,17 @@ class HostModel:
         self.guards = GuardSet()
         self.suppressed = 0
 
-    def on_rx(self, t_s, sock_label, data, v6sock=False):
+    def on_rx(self, t_s, sock_label, data, v6sock=False, src=None):
         """Returns (msg, effect): msg is the strictly decoded accepted datagram or None; effect for responses."""
         t_ms = t_s * 1000.0
         self.cache.advance(t_s)
         if len(data) > wire.MAX_ABS:
             return None, None
-        if not self.guards.check(sock_label, data, t_ms):
+        if not self.guards.check(sock_label, data, t_ms, src):
             self.suppressed += 1
             return None, None
         msg = wire.try_decode(data)
-        self.guards.accept(sock_label, data, t_ms, bool(msg and any(q.qu for q in msg.questions)))
+        self.guards.accept(sock_label, data, t_ms, bool(msg and any(q.qu for q in msg.questions)), src)
         if msg is None:
             return None, None
         if msg.is_response:
